@@ -181,8 +181,16 @@ def gen_workload(rng, profile=None, kinds=('dna', 'rna', 'protein'), weights=Non
         typ = rng.choice([T_UNDEF, T_UNDEF, T_PROTEIN, T_PROTEIN_DIVERGENT])
     else:
         typ = rng.choice([T_UNDEF, T_UNDEF, T_DNA, T_DNA_INTERNAL, T_RNA])
-    if rng.random() < 0.25:
+    r = rng.random()
+    zero_share = 0.20 if profile in ('hirsch', 'multilong', 'large') else 0.04
+    if r < zero_share:
+        # gaps cost nothing (or next to nothing): every gap configuration ties, opposite gap types can meet
+        gpo, gpe, tgpe = rng.choice([(0.0, 0.0, 0.0), (0.0, 0.0, 0.0), (0.0, 0.0, 1.0), (0.5, 0.0, 0.0), (0.0, 0.25, 0.0)])
+    elif r < zero_share + 0.22:
         gpo, gpe, tgpe = rng.choice([0.0, 1.0, 5.5, 8.0, 20.0, 55.0, 217.0]), rng.choice([0.0, 0.5, 1.0, 2.0, 8.0, 39.4]), rng.choice([0.0, 0.25, 1.0, 4.0, 292.6])
+    elif r < zero_share + 0.25:
+        # very large (but accepted) penalties
+        gpo, gpe, tgpe = rng.choice([1e4, 1e6, 9e8]), rng.choice([1e3, 1e6]), rng.choice([0.0, 1e6])
     else:
         gpo = gpe = tgpe = -1.0
     return {'kind': kind, 'profile': profile, 'shape': shape, 'names': names, 'seqs': seqs,
